@@ -290,7 +290,7 @@ struct Exec {
   static void random_case(vh::Case& c, const GenParams& gp, bool key64) {
     vh::Rng& r = c.rng;
     Scenario S;
-    S.ui = pick_universe(r);
+    S.ui = gp.churn ? pick_churn_universe(r) : pick_universe(r);
     S.U = &universes()[S.ui];
     S.ops = gen_history(r, *S.U, gp);
     zzo::Result res = zzo::zigzag_intervals(S.U->cells, S.ops);
